@@ -3,7 +3,10 @@
  *   usage: replay <op> k=v ...     exit 0 = clause held natively, 1 = clause violated (reproduced), 3 = cannot build input
  *   ops:   as_nanos_to_9999    r_timestamp r_ms                 (seconds since the epoch, milliseconds field)
  *          rfc822_no_weekday   r_ndig r_d0 r_d1 r_mon           (day of month as 1 or 2 digits, month index 0..11)
+ *          rfc822_offsets      r_neg r_z0 r_z1 r_z2 r_z3        (zone +-hhmm: sign and the four digits)
+ *          init_epoch_secs     r_whole r_frac_e7                (x = r_whole + r_frac_e7 / 10^7 seconds)
  */
+#include <math.h>
 #include <aws/common/byte_buf.h>
 #include <aws/common/date_time.h>
 #include <inttypes.h>
@@ -62,6 +65,44 @@ int main(int argc, char **argv) {
             return 0;
         }
         printf("\n");
+        return 0;
+    }
+    if (!strcmp(op, "rfc822_offsets")) {
+        if (!has(argc, argv, "r_z0")) return 3;
+        unsigned z0[4] = {(unsigned)get(argc, argv, "r_z0", 0), (unsigned)get(argc, argv, "r_z1", 0), (unsigned)get(argc, argv, "r_z2", 0), (unsigned)get(argc, argv, "r_z3", 0)};
+        int neg0 = (int)get(argc, argv, "r_neg", 0);
+        if (z0[0] > 9 || z0[1] > 9 || z0[2] > 9 || z0[3] > 9) return 3;
+        /* first the zone of the counterexample, then (the verifier's counterexample may lean on an unmodelled libc call whose
+         * result it chose freely) every zone +-0000 .. +-9999 */
+        for (int k = -1; k < 20000; ++k) {
+            unsigned z[4] = {z0[0], z0[1], z0[2], z0[3]};
+            int neg = neg0;
+            if (k >= 0) { neg = k >= 10000; unsigned v = (unsigned)(k % 10000); z[0] = v / 1000; z[1] = v / 100 % 10; z[2] = v / 10 % 10; z[3] = v % 10; }
+            char txt[64];
+            snprintf(txt, sizeof txt, "Sat, 15 Jan 2000 10:00:00 %c%u%u%u%u", neg ? '-' : '+', z[0], z[1], z[2], z[3]);
+            long off = (long)((10 * z[0] + z[1]) * 3600 + (10 * z[2] + z[3]) * 60) * (neg ? -1 : 1);
+            long want = 947930400L - off; /* 2000-01-15T10:00:00Z minus the offset */
+            struct aws_byte_cursor c = aws_byte_cursor_from_c_str(txt);
+            struct aws_date_time dt;
+            int rc = aws_date_time_init_from_str_cursor(&dt, &c, AWS_DATE_FORMAT_RFC822);
+            if (k < 0) printf("text=\"%s\" -> rc=%d timestamp=%" PRId64 ", expected %ld\n", txt, rc, (int64_t)dt.timestamp, want);
+            if (rc != AWS_OP_SUCCESS || (long)dt.timestamp != want) {
+                printf("text=\"%s\" -> rc=%d timestamp=%" PRId64 ", expected %ld\nVIOLATED: the numeric zone is not honoured\n", txt, rc, (int64_t)dt.timestamp, want);
+                return 1;
+            }
+        }
+        return 0;
+    }
+    if (!strcmp(op, "init_epoch_secs")) {
+        if (!has(argc, argv, "r_whole")) return 3;
+        uint64_t whole = get(argc, argv, "r_whole", 0), f7 = get(argc, argv, "r_frac_e7", 0);
+        if (whole > 253402300799ull || f7 > 9999999) return 3;
+        double x = (double)whole + (double)f7 / 1e7;
+        struct aws_date_time dt;
+        aws_date_time_init_epoch_secs(&dt, x);
+        long double exact = (long double)x * 1000.0L, got = (long double)aws_date_time_as_millis(&dt);
+        printf("x=%.7f -> timestamp=%" PRId64 " milliseconds=%u as_millis=%" PRIu64 "\n", x, (int64_t)dt.timestamp, dt.milliseconds, aws_date_time_as_millis(&dt));
+        if (fabsl(got - exact) > 0.5L + 1e-4L) { printf("VIOLATED: not the nearest millisecond of x\n"); return 1; }
         return 0;
     }
     return 3;
